@@ -39,7 +39,7 @@ fn meta() -> Meta {
     Meta {
         id: "C11",
         level: "fault_enumeration",
-        rule: "for every history (the fixed word W W W5 W W R W plus all words of length <= 3 (quick) / <= 6 (thorough) over {W20, W5, R}, each after 0 or 1 clean earlier runs) and every configuration (naming x cleanup x symlink x append), every file-system point hit by the history is a crash state; each crash state is restarted with append on and off; distinct_nontrivial = distinct (configuration, history, crash site, occurrence) where the crash falls inside a rotation, cleanup or compression (not directly before a plain write); with a symlink configured the link must resolve to the file holding the restarted run's last record; of all files known the newest k+m must survive the restarted run",
+        rule: "for every history (the fixed word W W W5 W W R W5 Reopen W5 W5 W plus all words of length <= 3 over {W20, W5, R} (quick) / <= 5 over {W20, W5, R, Reopen} (thorough), each after 0 or 1 clean earlier runs) and every configuration (naming x cleanup x symlink x append), every file-system point hit by the history is a crash state; each crash state is restarted with append on and off; distinct_nontrivial = distinct (configuration, history, crash site, occurrence) where the crash falls inside a rotation, cleanup or compression (not directly before a plain write); with a symlink configured the link must resolve to the file holding the restarted run's last record; of all files known the newest k+m must survive the restarted run",
         assumptions: vec![
             "process kill, not power loss: the directory as the kernel sees it survives; a single write(2) is atomic with respect to the kill".into(),
             "a kill inside io::copy is represented by the state before gz finish (truncated gzip stream, original still present)".into(),
@@ -78,14 +78,16 @@ fn grid() -> Vec<Case> {
 }
 
 fn fixed_word() -> Vec<HOp> {
-    vec![HOp::W(20), HOp::W(20), HOp::W(5), HOp::W(20), HOp::W(20), HOp::R, HOp::W(20)]
+    // (the records after Reopen are small: they go to the re-opened file, no rotation is due)
+    vec![HOp::W(20), HOp::W(20), HOp::W(5), HOp::W(20), HOp::W(20), HOp::R, HOp::W(5), HOp::Reopen, HOp::W(5), HOp::W(5), HOp::W(20)]
 }
 
 fn words(tier: &str) -> Vec<Vec<HOp>> {
     let mut v = vec![fixed_word()];
     {
-        let a = [HOp::W(20), HOp::W(5), HOp::R];
-        crate::for_each_word(3, if tier == "quick" { 3 } else { 6 }, |w| {
+        let a = [HOp::W(20), HOp::W(5), HOp::R, HOp::Reopen];
+        // (quick: words without reopen_output; it is part of the fixed word)
+        crate::for_each_word(if tier == "quick" { 3 } else { 4 }, if tier == "quick" { 3 } else { 5 }, |w| {
             if !w.is_empty() {
                 v.push(w.iter().map(|i| a[*i]).collect());
             }
@@ -448,6 +450,7 @@ fn decode_word(v: &Value) -> Vec<HOp> {
             "W(20)" => Some(HOp::W(20)),
             "W(5)" => Some(HOp::W(5)),
             "R" => Some(HOp::R),
+            "Reopen" => Some(HOp::Reopen),
             _ => None,
         })
         .collect()
